@@ -55,7 +55,7 @@ def run_C02(ctx):
         for _ in range(ctx.n(2, 12)):
             cases.append(long_block_case(ctx.rng, mode, ctx.thorough))
     res = ctx.run(cases)
-    ctx.check_absolute(cases, res)
+    ctx.check_absolute_shrunk(cases, res)
 
 
 def buf_case(rng, mode, total=None):
@@ -96,7 +96,7 @@ def run_C03(ctx):
     for _ in range(ctx.n(2, 12)):
         cases.append(long_stream_case(ctx.rng, "ofb", ctx.thorough))
     res = ctx.run(cases)
-    ctx.check_absolute(cases, res)
+    ctx.check_absolute_shrunk(cases, res)
 
 
 def stream_case(rng, mode, seeks=True, near_limit=False, n_ops=None, w_pref=None):
@@ -163,7 +163,7 @@ def run_C04(ctx):
             c.ops.insert(0, f"setpos {ctx.rng.choice([2**(w_bits//2) - 1, 2**(w_bits - 1) - 2, 2**w_bits - 5, ctx.rng.getrandbits(w_bits - 1)])}")
             cases.append(c)
     res = ctx.run(cases)
-    ctx.check_absolute(cases, res)
+    ctx.check_absolute_shrunk(cases, res)
 
 
 def cts_lengths(rng, bs, w, tier_many):
@@ -208,7 +208,7 @@ def run_C05(ctx):
     def sig(c, i, hi, si):
         L = len(c.ops[i].split()[1]) // 2 if c.ops[i].split()[1] != "-" else 0
         return f"{c.mode}/len=={'bs' if L == c.bs else 'other'}"
-    ctx.check_absolute(cases, res, sigfn=sig)
+    ctx.check_absolute_shrunk(cases, res, sigfn=sig)
 
 
 def run_C06(ctx):
@@ -226,7 +226,7 @@ def run_C06(ctx):
         cases.append(long_stream_case(ctx.rng, "belt", ctx.thorough))
         cases.append(long_core_case(ctx.rng, "belt", ctx.thorough))
     res = ctx.run(cases)
-    ctx.check_absolute(cases, res)
+    ctx.check_absolute_shrunk(cases, res)
 
 
 def seek_case(rng, mode, allow_past_end=False):
